@@ -162,6 +162,11 @@ Goal Proofs.C09Witness.c09_witness Go [] [lit "id"] Proofs.C09Witness.w_prog
     (go_file_decls uc_exec (Proofs.C09Witness.w_go [lit "id"]) (Proofs.C09Recon.c09_reconciled Proofs.C09Witness.w_prog)) "C09-go-acronym-target" = true.
 Proof. exact Props.C09.C09_go_acronym_target_refuted. Qed.
 Print Assumptions Props.C09.C09_go_acronym_target_refuted.
+Goal Proofs.C09Witness.c09_witness Go [] Proofs.C09Witness.w_acrs Proofs.C09Witness.w_prog_acr
+    (go_file_decls uc_exec (Proofs.C09Witness.w_go Proofs.C09Witness.w_acrs) (Proofs.C09Recon.c09_reconciled Proofs.C09Witness.w_prog_acr))
+    "C09-go-acronym-inner" = true.
+Proof. exact Props.C09.C09_go_acronym_inner_refuted. Qed.
+Print Assumptions Props.C09.C09_go_acronym_inner_refuted.
 Goal dom_C09 Kotlin (lit "KP") Proofs.C09Witness.w_clean = true /\ known_C09 Kotlin (lit "KP") [] Proofs.C09Witness.w_clean = None /\
   exists fd, kt_file_decls uc_exec Proofs.C09Witness.w_kt (Proofs.C09Recon.c09_reconciled Proofs.C09Witness.w_clean) = Ok fd /\
              Nat.leb 8 (List.length (c9_refs (c09_observe Kotlin fd))) = true /\
